@@ -149,6 +149,26 @@ MUTANTS += [
 ]
 
 
+# ------------------------------------------------------------------ exponent bookkeeping of tensor_network_ag_sum (e2, sympy)
+A = "quimb/tensor/tnag/core.py"
+S = "tensor_network_ag_sum::exponent-bookkeeping["
+MUTANTS += [
+    (A, S + "add,symbolic]", "    rescale_b = 10 ** (tnb.exponent - tna.exponent)", "    rescale_b = 10 ** (tna.exponent - tnb.exponent)", "expect-fail"),   # the swap
+    (A, S + "sub,float]", "    rescale_b = 10 ** (tnb.exponent - tna.exponent)", "    rescale_b = 10 ** (tna.exponent - tnb.exponent)", "expect-fail"),
+    (A, S + "add,zero]", "    rescale_b = 10 ** (tnb.exponent - tna.exponent)", "    rescale_b = 1.0", "expect-fail"),                                     # rescale dropped
+    (A, S + "add,symbolic]", "            tb.modify(apply=lambda x: x * rescale_b)\n            # only need to rescale a single tensor\n            rescale_b = 1.0",
+     "            tb.modify(apply=lambda x: x * rescale_b)", "expect-fail"),                                                                               # every site rescaled
+    (A, S + "sub,symbolic]", "    rescale_b = 10 ** (tnb.exponent - tna.exponent)",
+     "    rescale_b = 10 ** (tnb.exponent - tna.exponent)\n    tna.exponent = tnb.exponent", "expect-fail"),                                                # result exponent from b
+    (A, S + "sub,equal]", "            tb.negate_()\n            # only need to negate a single tensor\n            negate = False",
+     "            tb.negate_()", "expect-fail"),                                                                                                           # every site negated
+    (A, S + "sub,zero]", "        if negate:\n            tb.negate_()", "        if negate and rescale_b == 1.0:\n            tb.negate_()", "expect-fail"),   # sign lost when rescaling
+    (A, S + "add,float]", "        if rescale_b != 1.0:\n            tb.modify(apply=lambda x: x * rescale_b)", "        if rescale_b > 1.0:\n            tb.modify(apply=lambda x: x * rescale_b)", "expect-fail"),
+    (A, S, "    rescale_b = 10 ** (tnb.exponent - tna.exponent)", "    rescale_b = 10.0 ** (-tna.exponent + tnb.exponent)", "benign"),
+    (A, S, "            tb.modify(apply=lambda x: x * rescale_b)", "            tb.modify(apply=lambda y: rescale_b * y)", "benign"),
+]
+
+
 def run_mutant(tmp, relpath, suffix, old, new):
     """'failed' = an obligation whose id contains `suffix` fails on the mutated tree and did not fail on the unchanged one;
     'discharged' = every obligation whose id contains `suffix` is discharged on the mutated tree"""
@@ -162,7 +182,9 @@ def run_mutant(tmp, relpath, suffix, old, new):
     os.makedirs(os.path.dirname(dst), exist_ok=True)
     open(dst, "w").write(src.replace(old, new, 1))
     try:
-        if "[cyclic]" in suffix:
+        if "exponent-bookkeeping" in suffix:
+            base, mut = C.provider_sum(root=root), C.provider_sum(root=tmp)
+        elif "[cyclic]" in suffix:
             base, mut = C.provider_cyclic(root=root), C.provider_cyclic(root=tmp)
         else:
             base = C.provider_dispatch(root=root) + C.provider_threading(root=root)
